@@ -147,6 +147,8 @@ type Step struct {
 	Stack     string    `json:"-"`
 	Calls     []Call    `json:"calls,omitempty"`
 	Exceeded  bool      `json:"exceeded,omitempty"` // move budget hit: the case is outside the domain
+	// Tampered: the library changed memory of the application that it was only given to read
+	Tampered string `json:"tampered,omitempty"`
 	After     *Snapshot `json:"after,omitempty"`
 }
 
@@ -287,6 +289,7 @@ func (s *Session) Request(input []byte) (step Step) {
 	defer func() {
 		step.Calls = s.Rec.Since(mark)
 		step.Exceeded = s.Rec.Exceeded
+		step.Tampered = FlagGuardsTampered()
 	}()
 	var en *engine.DefaultEngine
 	var pe *persist.Persister
